@@ -357,6 +357,9 @@ def run_check(C, tier, seed, replay=None):
                  env=dict(os.environ, QV_REPO=REPO))
     if out.strip():
         log(out.strip())
+    adv = [l for l in out.split("\n") if l.startswith("gen_consts: advisory:")]
+    if adv:
+        cov["source_tie_advisories"] = adv
     if rc != 0:
         proof_broken.append("tools/gen_consts.py could not re-extract the constants/tables from the source: " + out.strip()[-400:])
 
